@@ -5828,6 +5828,9 @@ def format_float16(value):
             field = f"{value:16.2f}"
         elif value > -10000000000000.0:
             field = f"{value:16.1f}"
+        elif value <= -99999999999999.5:
+            field = _format_scientific16(value)
+            return field
         else:
             field = f"{value:16.1f}"
             try:
